@@ -104,6 +104,11 @@ def run(ctx, focus='C11'):
             # strings whose level is above 10 as a *sum* of transition costs none of which is 10 (a -> b at 6, b -> c at 5)
             pws = ['aaa'] * 450 + ['bbb'] * 200 + ['abc']
             ngram, mode, maxlen, asize = 2, 'sum-above-ten', 4, 100
+        if i == 5:
+            # every password starts with a character outside the two-letter alphabet: no initial n-gram is ever counted (the trainer
+            # itself stops on such a list; if it ever writes a ruleset for it, the three level functions must agree on that one too)
+            pws = ['xab', 'yab', 'zab', 'xba', 'yba', 'zbab', 'xabab', 'ybb']
+            ngram, mode, maxlen, asize = 2, 'no-initial-ngram', 6, 2
         if i == 1 and ngram == 3:
             ngram = 4 if all(len(p_) >= 1 for p_ in pws) and any(len(p_) >= 4 for p_ in pws) else 2
         try:
